@@ -28,7 +28,7 @@ def build_items(ctx, rnd):
             items.append(('gl', gi, G.EXTGLOB | G.MATCHBASE | G.GLOBSTAR, 'hidden'))
     E, D, S, L, MB, ND, NDD = G.EXTGLOB, G.DOTGLOB, G.GLOBSTAR, G.GLOBSTARLONG, G.MATCHBASE, G.NODIR, G.NODOTDIR
     fs = [E | S, E | S | D, E | S | NDD, E | S | D | NDD, E | S | MB, E | L | D, E | S | ND, E]
-    paths = gen.path_pool(ctx.tier, rnd, ext=True, budget=None if ctx.quick else 30000)
+    paths = gen.path_pool(ctx.tier, rnd, ext=True, budget=None if ctx.quick else 10000)
     for k, ast in enumerate(paths):
         if ctx.quick:
             chosen = [fs[0], fs[1], fs[2 + k % (len(fs) - 2)]]
